@@ -908,6 +908,17 @@ impl<'a> Gen<'a> {
 
     fn call(&mut self) {
         let (cs, amt, ap, g) = (16u8, 17u8, 18u8, 19u8);
+        if self.mode == Mode::Contract && self.w.self_transfer > 0 && self.rng.below(3000) < self.w.self_transfer as u64 {
+            // the executing contract calls itself and forwards coins: its id is the first
+            // field of its own call frame, so `$fp` serves as the call structure (the two
+            // parameters are the first words of the frame's asset id). A quarter of the
+            // context gas bounds the recursion.
+            self.emit(op::movi(amt, 1 + self.rng.below(9) as u32));
+            self.asset_ptr(ap);
+            self.emit(op::srli(g, CGAS, 2));
+            self.emit(op::call(FP, amt, ap, g));
+            return;
+        }
         let foreign = !self.env.foreign_contracts.is_empty() && self.rng.chance(1, 30);
         let id = if foreign {
             *self.rng.pick(&self.env.foreign_contracts)
@@ -1142,6 +1153,12 @@ impl<'a> Gen<'a> {
         self.ptr_loc(d, 640);
         self.ptr_loc(s, self.rng.below(256) as u32);
         self.emit(op::movi(l, self.rng.below(200) as u32));
+        if self.hostile() {
+            // destination (or source) somewhere it must not be: address 0 (readable, not
+            // owned), the gap, the heap start, the end of memory
+            let t = if self.rng.below(3) < 2 { d } else { s };
+            self.twist(t);
+        }
         match self.rng.below(7) {
             5 => {
                 // pairing check: curve id 0, element count small or (hostile) huge
